@@ -5,3 +5,4 @@ import Lemmas.Pending
 import Lemmas.Hash
 import Lemmas.Lex
 import Lemmas.Tx
+import Lemmas.TxFail
